@@ -108,7 +108,7 @@ func init() {
 	// live-c09 <connections> <messages> <trace>
 	cmds["live-c09"] = func(a []string) {
 		nconn, nmsg := atoi(a[0]), atoi(a[1])
-		l := startLive(liveOpts{traceTo: a[2]})
+		l := startLive(liveOpts{traceTo: a[2], noFilter: len(a) > 3 && a[3] == "nofilter"})
 		kp := &keeper{byC: map[int][]*kept{}, reads: map[int]int{}}
 		kp.cond = sync.NewCond(&kp.mu)
 		l.readHold = func(c int, m *service.Message) { kp.keep(c, m) }
@@ -132,11 +132,13 @@ func init() {
 		}
 		r := newRand(909)
 		var wg sync.WaitGroup
-		wg.Add(1)
-		go func() {
-			defer wg.Done()
-			stalledTransfer(l, kp)
-		}()
+		if !l.noFilter {
+			wg.Add(1)
+			go func() {
+				defer wg.Done()
+				stalledTransfer(l, kp)
+			}()
+		}
 		for c := 0; c < nconn; c++ {
 			ver := c % 2
 			phone := randPhone(r, ver)
@@ -172,9 +174,25 @@ func init() {
 							body = append(randBytes(rr, 8), make([]byte, 28+rr.Intn(20))...)
 						}
 					}
+					if rr.Intn(8) == 0 {
+						// two pictures that differ in their multimedia id only (same size, same type, format, event and channel)
+						pic := append(make([]byte, 36), randBytes(rr, 10+rr.Intn(20))...)
+						for k := 0; k < 2; k++ {
+							pk := append([]byte{}, pic...)
+							copy(pk, []byte{0xD0 + byte(k), byte(t.idx), byte(i >> 8), byte(i)})
+							t.send(t.frame(0x0801, pk))
+						}
+					}
 					switch rr.Intn(7) {
 					case 6: // a frame whose header names another phone or uses the other header version (a forwarder's connection)
 						oh := hdrSpec{id: id, serial: t.nextSerial(), ver: t.ver, verbyte: 1, phone: t.phone, body: body}
+						if rr.Intn(2) == 0 { // ... also when it is a registration or an authentication
+							oh.id = []int{0x0100, 0x0102}[rr.Intn(2)]
+							oh.body = append(make([]byte, 25+8), []byte("A12345")...)
+							if oh.id == 0x0102 {
+								oh.body = append([]byte{6}, append([]byte("123456"), make([]byte, 35)...)...)
+							}
+						}
 						if rr.Intn(2) == 0 {
 							oh.ver = 1 - t.ver
 							oh.phone = randPhone(rr, oh.ver)
@@ -279,7 +297,7 @@ func init() {
 		wg.Wait()
 		// connections that drop in the middle of a sub-package transfer: the parts were handed to the join
 		// callback (first message) and must keep their content after the connection's cleanup
-		for c := 0; c < 3; c++ {
+		for c := 0; c < 3 && !l.noFilter; c++ {
 			phone := []byte{0x01, 0x30, 0x00, 0x00, 0x09, byte(c)}
 			t := l.dial(phone, 0)
 			for no := 1; no <= 2; no++ {
